@@ -27,20 +27,9 @@ EXTRA_FLAGS = ["--verbose-graph", "--verbose-quantization", "--verbose-packing",
 
 
 def crash_tags(spec):
-    """coarse structural features appended to a crash bucket so that a known finding only masks the construct it was recorded for"""
-    tags = []
-    prod = {}
-    for o in spec["ops"]:
-        for t in o["outputs"]:
-            prod[t] = o
-    for o in spec["ops"]:
-        f = (o.get("opts") or {}).get("fields", {})
-        strided = f.get("StrideW", 1) > 1 or f.get("StrideH", 1) > 1
-        if strided and o["code"] in ("CONV_2D", "DEPTHWISE_CONV_2D", "MAX_POOL_2D", "AVERAGE_POOL_2D"):
-            src = prod.get(o["inputs"][0])
-            if src is not None and src["code"] in ("SLICE", "STRIDED_SLICE", "SPLIT", "SPLIT_V"):
-                tags.append("slice-feeds-strided-op")
-    return "".join("+" + t for t in sorted(set(tags)))
+    import constructs
+
+    return constructs.tags(spec)
 
 
 def classify(res, case):
